@@ -229,6 +229,12 @@ func (ev *Ev) builtin(name string, x *ast.CallExpr) Value {
 			if st == nil {
 				return ev.errorf(x.Pos(), "append to non-slice")
 			}
+			if u.isCut(s) && u.c != nil && u.c.Flags["append_in_place_ok"] {
+				u.assumeNote("append to a re-sliced view in " + u.name + " is modelled as copying: the unit declares (append_in_place_ok) that the overwritten backing array is not observed afterwards")
+			}
+			if u.isCut(s) && !(u.c != nil && u.c.Flags["append_in_place_ok"]) {
+				u.emit(ev.st, "alias/append@"+u.exprOrd(x), "false", "append to a re-sliced view writes into the shared backing array (not modelled): build the result in a slice of its own, or declare flag append_in_place_ok")
+			}
 			arr := u.allocRef(ev.st, "arr")
 			tl := ev.lenOf(tt, x).T
 			res := Value{K: vSlice, Typ: s.Typ, Comp: map[string]Value{"#arr": scalar(arr, SRef, nil), "#len": intV(app("+", s.Comp["#len"].T, tl))}}
@@ -256,6 +262,15 @@ func (ev *Ev) builtin(name string, x *ast.CallExpr) Value {
 			return ev.errorf(x.Pos(), "append to non-slice")
 		}
 		cur := s
+		if u.isCut(s) && u.c != nil && u.c.Flags["append_in_place_ok"] {
+			u.assumeNote("append to a re-sliced view in " + u.name + " is modelled as copying: the unit declares (append_in_place_ok) that the overwritten backing array is not observed afterwards")
+		}
+		if u.isCut(s) && !(u.c != nil && u.c.Flags["append_in_place_ok"]) {
+			// appending to a re-sliced view (s[:k], s[i:j]) may write into the backing array the view shares with the slice
+			// it was cut from; the model copies instead, so the unit is outside the verified subset unless it declares
+			// (flag append_in_place_ok) that the overwritten array is not observed afterwards
+			u.emit(ev.st, "alias/append@"+u.exprOrd(x), "false", "append to a re-sliced view writes into the shared backing array (not modelled): build the result in a slice of its own, or declare flag append_in_place_ok")
+		}
 		for ai, a := range x.Args[1:] {
 			val := ev.coerce(ev.exprWithType(a, st.Elem()), st.Elem())
 			if ai == 0 {
